@@ -9,18 +9,18 @@ model, print.
 
 `history <modglobals> <sat> <n> <doc>*n <steps>`
 * modglobals = `NAME=VAL,…|~`
-* doc = `<cfg>#<part>#<part>…`, cfg = `<pytest 0|1>;<importOk 0|1>;<hasModule 0|1>;<defaults NAME=1,…|~>;<reportKey>`
+* doc = `<cfg>#<part>#<part>…`, cfg = `<pytest 0|1>;<importOk 0|1>;<hasModule 0|1>;<defaults NAME=1,…|~>;<reportKey>[;<REQUIRES default: N | ~ | strings joined by +>]`
 * part = `<stmts>@<exec|eval|single>@<want N|lines>@<directives>`, stmts `/`-joined:
   `n` (comment line) | `z` (statement without modelled effect) | `b.NAME.VAL` | `s.NAME` | `i.NAME` | `q.NAME` | `p.VAL` | `m` | `f` | `x`
 * steps = `,`-joined `<doc index><r|e>` (r = on_error='return', e = 'raise')
 Answer: one record per step, TAB-joined:
 `<ending> <pfs> <kind|-> <idx|-> <tb|-> skipped=… executed=… logged=<i:str|…> start=<rstate> ns=<ns> mod=<ns> tmpl=<req>`
 
-`ppc <path> <events>` events `|`-joined: `new:<dpath>:<index>` `enter:<k>` `exit:<k>` `ins:<i>:<x>` `app:<x>` `rem:<x>` `pop`
+`ppc <path> <events>` events `|`-joined: `new:<dpath>:<index>` `enter:<k>` `exit:<k>` `exitw:<k>` (exit while warnings are errors) `ins:<i>:<x>` `app:<x>` `rem:<x>` `pop`
 Answer: per event `<result>/<path>` TAB-joined (result: `idx=<stored>`, exit result, or `-`).
 
 `runbracket <stdout,stderr,filtersId,show,impl> <filter items> <path> <pre> <part>*`
-* pre = `none` | `<dpath>:<index>:<ops>:<ending>` (import body inside `PythonPathContext`)
+* pre = `none` | `<dpath>:<index>:<ops>:<ending>[:<warnings are errors 0|1>]` (import body inside `PythonPathContext`)
 * part = `<ops>:<ending>:<goesOn 0|1>:<logRaises 0|1>`; ops `/`-joined (`~` none): `so.N` `se.N` `af.N` `rf.N` `sw.N`
   `pi.I.X` `pa.X` `pr.X` `pp`; ending = `n|e|s|k`
 Answer: `<ending> out=<n> err=<n> filt=<id>:<items> show=<n> impl=<n> path=<list>`
@@ -70,6 +70,11 @@ def decMiniDoc (f : String) : DocDef × List (List Stmt) :=
   | cfg :: parts =>
     let ps := parts.map decMiniPart
     (match cfg.splitOn ";" with
+     | [pyt, imp, hm, defaults, rk, req] =>
+       ({ parts := ps.map (·.1), pytestMode := pyt == "1", importOk := imp == "1", hasModule := hm == "1",
+          defaults := decBoolAssoc defaults, reportKey := rk,
+          defaultsReq := if req == "N" then none else if req == "~" then some []
+                         else some ((req.splitOn "+").map decStr) }, ps.map (·.2))
      | [pyt, imp, hm, defaults, rk] =>
        ({ parts := ps.map (·.1), pytestMode := pyt == "1", importOk := imp == "1", hasModule := hm == "1",
           defaults := decBoolAssoc defaults, reportKey := rk }, ps.map (·.2))
@@ -114,7 +119,8 @@ def decInt (f : String) : Int :=
   if f.startsWith "-" then - ((f.drop 1).toString.toNat! : Int) else (f.toNat! : Int)
 
 def exitName : ExitResult → String
-  | .clean => "clean" | .recovered => "recovered" | .runtimeError => "RuntimeError" | .indexError => "IndexError"
+  | .clean => "clean" | .recovered => "recovered" | .warnRaised => "warnRaised"
+  | .runtimeError => "RuntimeError" | .indexError => "IndexError"
 
 def ppcEvents : List (String × Int) → List String → List String → List String
   | _, _, [] => []
@@ -131,7 +137,13 @@ def ppcEvents : List (String × Int) → List String → List String → List St
     | ["exit", k] =>
       (match objs[k.toNat!]? with
        | some (d, i) =>
-         let ex := ppcExit d i path
+         let ex := ppcExit false d i path
+         out (exitName ex.2) ex.1 :: ppcEvents objs ex.1 rest
+       | none => ["bad-object"])
+    | ["exitw", k] =>      -- `__exit__` while warnings are errors
+      (match objs[k.toNat!]? with
+       | some (d, i) =>
+         let ex := ppcExit true d i path
          out (exitName ex.2) ex.1 :: ppcEvents objs ex.1 rest
        | none => ["bad-object"])
     | ["ins", i, x] =>
@@ -181,6 +193,9 @@ def decPartBody (f : String) : PartBody :=
 
 def decPre (f : String) : Body :=
   match f.splitOn ":" with
+  | [d, i, ops, e, w] => fun st =>
+    let r := withPPC (String.ofList (decStr d)) (decInt i) (opsBody (decPOps ops) (decEnding e)) st (w == "1")
+    (r.1, r.2.1)
   | [d, i, ops, e] => fun st =>
     let r := withPPC (String.ofList (decStr d)) (decInt i) (opsBody (decPOps ops) (decEnding e)) st
     -- `_custom_import_modpath`: an Exception of the import or of `__exit__` becomes a RuntimeError
